@@ -19,7 +19,7 @@ Do not edit or add *_test.go files as part of the change, do not touch go.mod/go
 
 Then write a demonstration: a Go test file containing a function named TestSeedDemo (in the package of the code under test, file name zz_seed_demo_test.go) which PASSES on the unchanged library and FAILS with your change applied. It must be deterministic (no reliance on wall-clock races; use scripted in-memory connections / generous timeouts where needed) and finish within 60 s.
 
-Verify all of it yourself: (1) with your change, go build ./... and the full existing test suite pass; (2) the demo fails with the change; (3) git stash (or revert) the change and check the demo passes on the unchanged code; then restore the change.
+Verify all of it yourself: (1) with your change, go build ./... and the full existing test suite pass; (2) the demo fails with the change; (3) revert the change with "git diff > /tmp/seedout/'$NAME'/patch.diff && git apply -R /tmp/seedout/'$NAME'/patch.diff" (NEVER use git stash: the stash is shared between worktrees), check the demo passes on the unchanged code, then restore the change with "git apply /tmp/seedout/'$NAME'/patch.diff".
 
 Deliverables, written to /tmp/seedout/$NAME/ :
   - patch.diff : output of 'git diff' in the worktree containing ONLY your change to non-test source (do not include the demo test file in it)
